@@ -81,7 +81,9 @@
 (*   "no_link_cb"   the engine before commit d02da71: E3(b) never ran      *)
 (*                  (node.rs tested the child's kind): a key added later   *)
 (*                  to an already computed shared node (S5) never reaches  *)
-(*                  acc.  Repaired in /repo; kept to show the effect.      *)
+(*                  acc.  Repaired in /repo; kept to show the effect (an   *)
+(*                  approximation of the old engine, not validated to the  *)
+(*                  last behaviour).                                       *)
 (* With a defect switched on TLC reports InvOpCorrect violated.            *)
 (*                                                                         *)
 (* All instances [shape, filter, cut] run in lock-step on the same         *)
